@@ -99,23 +99,15 @@ def rule_front(chk, comp):
     lits = [l.get("v") for l in F.exprs(comp["thir"], "Lit") if l.get("t") == "str"]
     ok = "RSSL_TARGET_HLSL" in lits and "RSSL_TARGET_MSL" in lits
     chk.ob("C18.front/defines", ok, "RSSL_TARGET_HLSL / RSSL_TARGET_MSL defines present" if ok else "the RSSL_TARGET_* defines are gone", where(comp))
-    # control dependence: front-end calls are not control dependent on a target test other than the InvalidArgs return
-    te_all = []
-    for i, s in target_reads:
-        pass
+    # control dependence: every front-end call is executed whatever the target is. For one target value, at each test
+    # of the target only the edge that value takes is feasible; the call must stay reachable for every value.
+    variants = chk.facts.variants("Target", "rssl") or []
+    chk.anchor("C18.anchor/Target", len(variants) >= 3 and variants, "enum Target")
     for name in front[1:]:
         for bb, t in cfg.calls(name):
-            # remove nothing: is the call reachable on every target? i.e. not dominated by a specific Target variant edge
-            for vi in range(4):
-                import c07
-                edges = c07.discr_value_edges(cfg, "Target", vi)
-                # if removing the edges for variant vi makes the call unreachable, the call only happens for that variant
-                if edges and bb not in cfg.reachable_from(0, avoid_edges=edges):
-                    # allowed when *all* paths simply pass a two-way matches!() that rejoins; reachable check handles rejoin
-                    chk.ob("C18.front/%s/all-targets" % name, False, "%s is executed only for one target" % name, where(comp, t.get("ln")))
-                    break
-            else:
-                chk.ob("C18.front/%s/all-targets" % name, True, "executed for every target", where(comp, t.get("ln")))
+            missing = [vn for vi, vn in enumerate(variants) if bb not in cfg.reachable_when_discr("Target", vi)]
+            chk.ob("C18.front/%s/all-targets" % name, not missing, "executed for every target" if not missing else
+                   "%s is not executed when the target is %s: the front-end verdict depends on the target" % (name, ", ".join(missing)), where(comp, t.get("ln")))
 
 
 def rule_confine(chk):
